@@ -188,6 +188,9 @@ def g1(ctx):
                 f = dict(zip(r[4], r[3]))
                 stv = f.get('state')
                 okc = stv is not None and stv[0] == 'call' and atomic_method(stv[2]) == 'new' and is_const(stv[3][0], LOCKED)
+            if not okc and r is not None and r[0] == 'call' and r[2] in (canon(SIGK + x) for x in ('new_sync', 'new_async', 'new_async_ptr')) \
+                    and r[2] != canon(SIGK + nm):
+                okc = True  # written in terms of a sibling constructor, which is checked here in its own right
             if not okc:
                 ctx.violate(SIGK + nm, p, 'constructor does not start in state LOCKED: %s' % fmt(r))
 
@@ -286,19 +289,27 @@ def g3(ctx):
                 ctx.violate(b.key, p, 'Signal::%s wakes with the wrong signal or final state: %s' % (nm, fmt(w.args[1])), at=w.at)
             if ptrop:
                 po = [e for e in calls if e.name == ptrop]
+                via_helper = False
+                if nm == 'recv' and not po:
+                    # `let d = (*this).assume_init(); wake; d`: the read through the sibling helper, which G8 pins to `self.ptr.read()`
+                    po = [e for e in calls if e.name == 'signal::Signal::assume_init' and e.args and (
+                        e.args[0] == this or (e.args[0][0] in ('ref', 'rawptr') and e.args[0][1] == ('deref', this)))]
+                    via_helper = bool(po)
                 if len(po) != 1:
                     ctx.violate(b.key, p, 'Signal::%s performs %d payload transfers' % (nm, len(po)))
                     continue
                 if po[0].idx > w.idx:
                     ctx.violate(b.key, p, 'Signal::%s publishes (wake) before the payload transfer' % nm, at=w.at)
                 recv = po[0].args[0]
-                if not (recv[0] in ('ref', 'rawptr') and recv[1] == ('pfield', ('deref', this), 'ptr')):
+                if not via_helper and not (recv[0] in ('ref', 'rawptr') and recv[1] == ('pfield', ('deref', this), 'ptr')):
                     ctx.violate(b.key, p, 'Signal::%s transfers through something other than this signal\'s ptr' % nm, at=po[0].at)
                 if nm == 'send' and (len(po[0].args) < 2 or po[0].args[1] != ('param', 2)):
                     ctx.violate(b.key, p, 'Signal::send does not write its argument', at=po[0].at)
                 if nm == 'recv' and p.ret != po[0].val:
                     ctx.violate(b.key, p, 'Signal::recv does not return what it read')
             others = [e for e in calls if e.name not in ('signal::Signal::wake', ptrop)]
+            if ptrop and nm == 'recv':
+                others = [e for e in others if not (e.name == 'signal::Signal::assume_init' and e.idx < w.idx)]
             for o in others:
                 if o.idx > w.idx and contains(o.args, this):
                     ctx.violate(b.key, p, 'Signal::%s touches the signal after wake (%s)' % (nm, o.name), at=o.at)
@@ -470,6 +481,13 @@ def g6(ctx):
                     okshape = True
             if core is not None and core[0] == 'const' and core[1] == 'bool' and core[2] == '0':
                 okshape = True
+            # `match state { UNLOCKED => true, TERMINATED => false, _ => keep waiting }`: the literal `true` on the arm of a switch on
+            # the LAST state read that selected UNLOCKED
+            ss = [e for e in evs if e.name == 'BR' and e.data['label'] == 'sig_state']
+            if core is not None and core[0] == 'const' and core[1] == 'bool' and core[2] == '1' and ss and ss[-1].data['outcome'] == UNLOCKED:
+                ops_ = atomic_ops(p)
+                if ops_ and ss[-1].data['val'] == ops_[-1]['ev'].val:
+                    okshape = True
             if not okshape:
                 ctx.violate(b.key, p, '%s result is not `state == UNLOCKED` on a value read from the state: %s' % (nm, fmt(core)))
                 continue
@@ -484,6 +502,12 @@ def g6(ctx):
                 if lastv is None or inner != lastv:
                     ctx.violate(b.key, p, '%s decides success on a stale read of the state' % nm)
             sd = [e for e in evs if e.name == 'BR' and e.data['label'] == 'sig_done']
+            if ss and (not sd or ss[-1].idx > sd[-1].idx):
+                # the switch on the state stands for the `state < LOCKED` test: final iff it selected UNLOCKED or TERMINATED
+                fin = ss[-1].data['outcome'] in (UNLOCKED, TERMINATED)
+                notfin = ss[-1].data['outcome'].startswith('other(') and {UNLOCKED, TERMINATED} <= set(ss[-1].data['outcome'][6:-1].split('|'))
+                if fin or notfin:
+                    sd = sd + [type('E', (), {'data': {'outcome': 'T' if fin else 'F'}, 'idx': ss[-1].idx})()]
             cas = [e for e in evs if e.name == 'BR' and e.data['label'] == 'cas']
             if nm in ('wait', 'async_blocking_wait', 'poll'):
                 done = bool(sd) and sd[-1].data['outcome'] == 'T'
@@ -643,7 +667,12 @@ def g8(ctx):
         for p, evs in ret_paths(ctx, b):
             ctx.oblige(1, sample='load_and_drop reads ptr once and drops the value')
             reads = [e for e in p.events if e.kind == 'call' and e.name == 'pointer::KanalPtr::read']
-            if len(reads) != 1 or reads[0].args[0][1] != own_ptr:
+            if not reads:
+                # `drop(self.assume_init())`: through the sibling helper checked just above
+                via = [e for e in p.events if e.kind == 'call' and e.name == 'signal::Signal::assume_init' and e.args and e.args[0] == ('param', 1)]
+                if len(via) == 1:
+                    reads = via
+            if len(reads) != 1 or (reads[0].name == 'pointer::KanalPtr::read' and reads[0].args[0][1] != own_ptr):
                 ctx.violate(b.key, p, 'load_and_drop does not read this signal\'s ptr exactly once')
                 continue
             drops = [e for e in p.events if e.kind == 'drop' and e.val == reads[0].val]
